@@ -289,6 +289,64 @@ theorem destroy_unauthorised_noop (n : Node) (signer cid : Nat) (ok : Bool) (rea
         exact hcirc
     simp only [Bool.not_true, Bool.false_eq_true, if_false, hvia, hloc]
 
+/-- a *half-closed* relay route (do_remove dropped the other direction) is removed by no destroy at all, whoever signs it:
+    the only peer on record for the side the id belongs to went with the other half -/
+theorem half_closed_relay_ignores_every_destroy (n : Node) (signer cid : Nat) (ok : Bool) (reason : Nat) (nx : Relay)
+    (hr : get n.relays cid = some nx) (hp : get n.relays nx.next = none)
+    (he : get n.exits cid = none) (hc : get n.circuits cid = none) :
+    onDestroy (B := B) n signer cid ok reason = (n, []) := by
+  apply destroy_unauthorised_noop
+  rintro ⟨_, h⟩
+  rcases h with ⟨nx', pv, h1, h2, _⟩ | ⟨e, h1, _⟩ | ⟨c, h1, _⟩
+  · rw [hr] at h1
+    cases h1
+    rw [hp] at h2
+    cases h2
+  · rw [he] at h1
+    cases h1
+  · rw [hc] at h1
+    cases h1
+
+/-- removing one direction of a relay route touches only that id's relay entry (or only schedules it) -/
+theorem half_removal_touches_only_its_id (n : Node) (cid : Nat) (d : Bool) :
+    (apiRemoveRelayHalf (B := B) n cid d).1.exits = n.exits ∧ (apiRemoveRelayHalf (B := B) n cid d).1.circuits = n.circuits ∧
+    ∀ k, k ≠ cid → get (apiRemoveRelayHalf (B := B) n cid d).1.relays k = get n.relays k := by
+  unfold apiRemoveRelayHalf
+  cases get n.relays cid with
+  | none => exact ⟨rfl, rfl, fun _ _ => rfl⟩
+  | some r =>
+    dsimp only
+    split
+    · exact ⟨rfl, rfl, fun _ _ => rfl⟩
+    · exact ⟨rfl, rfl, fun k hk => get_del_other _ _ _ hk⟩
+
+/-- the circuit `TunnelEndpoint.send` picks for an anonymized overlay is one of the node's circuits of the wanted length
+    that is READY: all its hops are verified and it is not closing.  A circuit that is still extending is never picked. -/
+theorem endpoint_send_picks_only_a_ready_circuit (cs : List (Nat × Circ)) (h cid : Nat) (hp : pickReady cs h = some cid) :
+    ∃ c, (cid, c) ∈ cs ∧ c.goal = h ∧ c.closing = false ∧ c.goal ≤ c.hops.length := by
+  unfold pickReady at hp
+  cases hf : cs.find? (fun p => p.2.goal == h && p.2.ready) with
+  | none => rw [hf] at hp; cases hp
+  | some p =>
+    rw [hf] at hp
+    simp only [Option.map_some, Option.some.injEq] at hp
+    have hm := List.mem_of_find?_eq_some hf
+    have hq := List.find?_some hf
+    simp only [Circ.ready, Bool.and_eq_true, beq_iff_eq, Bool.not_eq_true', decide_eq_true_eq] at hq
+    refine ⟨p.2, ?_, hq.1, hq.2.1, hq.2.2⟩
+    rw [← hp]
+    exact hm
+
+/-- with no READY circuit of the wanted length nothing leaves the node and nothing changes -/
+theorem endpoint_send_without_ready_circuit_sends_nothing (n : Node) (h dest tag : Nat) (hp : pickReady n.circuits h = none) :
+    apiEndpointSend A n h dest tag = (n, []) := by
+  unfold apiEndpointSend
+  rw [hp]
+
+example : pickReady [(5, ⟨2, [⟨1, 1, 1⟩], some ⟨2, 2, 2⟩, 0, 0, false⟩), (6, ⟨2, [⟨1, 1, 1⟩, ⟨2, 2, 2⟩], none, 0, 0, false⟩)] 2 = some 6 := by
+  decide
+example : pickReady [(5, ⟨2, [⟨1, 1, 1⟩], some ⟨2, 2, 2⟩, 0, 0, false⟩)] 2 = none := by decide
+
 /-- whatever a destroy does, it only touches the entry it names (and, for a relay, its pair) and what it removes
     was authorised: each table is either unchanged or is the result of the removal (`rmRelays` / `rmExit` / `rmCircuit`:
     the entry is popped — or, with remove_tunnel_delay > 0, only scheduled: circuit closed, pop later) of exactly the
